@@ -31,7 +31,7 @@ EXHAUSTIVE = True
 REPEAT = 2      # every case is evaluated twice in the same process: the second verdict must equal the first (call-history oracle)
 CHUNK = 2
 
-CONTENTS = ['single', 'tworep', 'multi', 'purecov', 'reweighted', 'bare', 'trap']
+CONTENTS = ['single', 'tworep', 'multi', 'purecov', 'reweighted', 'bare', 'trap', 'npidl']
 MAGS = [1.0, 1e-12, 1e12]
 TAGS = [None, 'a tag', '', 0, 1.5, False, True, ['x', 1], {'k': 'v', 'n': 2}]
 
@@ -64,6 +64,11 @@ def make(pe, content, key, mag=1.0):
         o = prim({'A': 'big'}, 0, 2.0)
     elif content == 'trap':    # irregular lists whose length and end points would also fit an equally spaced list
         o = prim({'A|r1': 'eqD', 'A|r2': 'trA'}, 0, 0.9)
+    elif content == 'npidl':   # configuration lists given as numpy integer array / list of numpy integers (irregular and regular)
+        r = alpha.rng('c11np', key)
+        cf = [alpha.CFG['irr'], alpha.CFG['g2'], alpha.CFG['ev']]
+        o = pe.Obs([r.normal(1.0, 0.2, size=len(c)) for c in cf], ['A|r1', 'A|r2', 'A|r3'],
+                   idl=[np.array(cf[0], dtype=np.int64), [np.int32(v) for v in cf[1]], np.array(cf[2], dtype=np.uint16)])
     else:
         raise ValueError(content)
     if mag != 1.0:
